@@ -82,7 +82,9 @@ func dateComponents(args []*variants.Variant, ops variants.IVariantOperations) (
 	return d, true
 }
 
-func fnOracle(name string, args []*variants.Variant, out *sx.List) { fnOracleWith(name, args, out, nil) }
+func fnOracle(name string, args []*variants.Variant, out *sx.List) {
+	fnOracleWith(name, args, out, nil)
+}
 
 func fnOracleWith(name string, args []*variants.Variant, out *sx.List, ops variants.IVariantOperations) {
 	orc := *out
@@ -153,7 +155,8 @@ func fnOracleWith(name string, args []*variants.Variant, out *sx.List, ops varia
 
 func genC08(ctx *Ctx) {
 	pool := valuePool()
-	nums := []*variants.Variant{pool[1], pool[2], pool[3], pool[4], pool[6], pool[7], pool[8], pool[12], pool[14], pool[20], pool[21], pool[27], pool[28], pool[30], pool[33], pool[0], pool[37], pool[45]}
+	nums := []*variants.Variant{pool[1], pool[2], pool[3], pool[4], pool[6], pool[7], pool[8], pool[12], pool[14], pool[20], pool[21], pool[27], pool[28], pool[30], pool[33], pool[0], pool[37], pool[45],
+		variants.VariantFromDouble(math.Copysign(0, -1)), variants.VariantFromFloat(float32(math.Copysign(0, -1))), variants.VariantFromString("-0"), variants.VariantFromString("-0.0")}
 	small := []*variants.Variant{variants.VariantFromInteger(2021), variants.VariantFromInteger(2), variants.VariantFromInteger(29), variants.VariantFromInteger(13), variants.VariantFromInteger(0), variants.VariantFromInteger(-1), variants.VariantFromInteger(59), variants.VariantFromLong(1614834367), variants.VariantFromInteger(1), variants.VariantFromInteger(3)}
 	pick := func(from []*variants.Variant) *variants.Variant { return from[ctx.Rnd.Intn(len(from))] }
 	arity := map[string][]int{"TICKS": {0}, "TIMESPAN": {1, 3, 4, 5}, "NOW": {0}, "DATE": {1, 2, 3, 6, 7}, "DAYOFWEEK": {1}, "MIN": {2, 3, 5}, "MAX": {2, 3, 5}, "SUM": {2, 4},
@@ -412,6 +415,10 @@ func c08Denotes(up string, args []*variants.Variant, res *variants.Variant, m va
 		case variants.Double:
 			if res.Type() != variants.Double || canon64(math.Float64bits(res.AsDouble())) != canon64(math.Float64bits(math.Abs(args[0].AsDouble()))) {
 				return "Abs of a double differs from math.Abs"
+			}
+		case variants.Float:
+			if res.Type() != variants.Float || canon32(math.Float32bits(res.AsFloat())) != canon32(math.Float32bits(float32(math.Abs(float64(args[0].AsFloat()))))) {
+				return "Abs of a float differs from math.Abs"
 			}
 		}
 	case "CONTAINS":
